@@ -117,9 +117,7 @@ func cursorMethods(ms *types.MethodSet) bool {
 		return true
 	}
 	if _, ok := has["Next"]; ok {
-		if d, ok := has["Done"]; ok && d.Params().Len() == 0 && d.Results().Len() == 1 {
-			return true
-		}
+		return true // anything that advances: iterators, bit readers
 	}
 	return false
 }
